@@ -237,6 +237,12 @@ pub fn evaluate_single(cfg: &RunCfg, rec: &RunRecord) -> (Vec<Finding>, Facts) {
             if msg.contains("Chunk size must be positive") {
                 continue; // documented; only C16 generates these, and judges them itself
             }
+            if msg.contains("capacity overflow") && c.arg > (1usize << 40) && !kind.known_size() {
+                // documented: a buffered iterator over a wrapped Iterator allocates chunk_size
+                // slots; the caller who asks for usize::MAX of them panics. What matters is
+                // what happens to the OTHER calls afterwards (C09).
+                continue;
+            }
             out.push(f(
                 "*",
                 "unexpected-panic",
@@ -689,6 +695,19 @@ pub fn evaluate_single(cfg: &RunCfg, rec: &RunRecord) -> (Vec<Finding>, Facts) {
                     }
                 }
                 (k, Res::Chunk { begin, announced, impossible, items, exhausted, skipped, skip_at, .. }) if k.is_pull() => {
+                    if *impossible && !chunk_flagged {
+                        // a chunk that announces more elements than the source has (or than were
+                        // asked for) is nothing a sequential cursor hands out
+                        chunk_flagged = true;
+                        out.push(f(
+                            if has_skip { "C06" } else { "C04" },
+                            "chunk-not-cursor-positions",
+                            format!(
+                                "{} announced {announced} elements from begin index {begin}: not what a sequential cursor over {len} elements delivers",
+                                describe_call(rec, ci)
+                            ),
+                        ));
+                    }
                     if *impossible || c.arg == 0 {
                         representable = false;
                         continue;
